@@ -27,7 +27,7 @@ class C02(PipelineProp):
         if rng.random() < 0.35:
             inp, ptx, pieces = P.gen_boundary_sweep(rng)
             return {"gen": "sweep", "input": inp, "pretext": ptx, "prefix": "SUPER_", "pieces": pieces}
-        inp = P.gen_input(rng, style=rng.choice(["tpf", "tpf", "fasta"]))
+        inp = P.gen_input(rng, style=rng.choice(["tpf", "tpf", "fasta"]), double_gaps=rng.choice([0.0, 0.0, 0.3]))
         ptx, pieces = P.gen_pretext(rng, inp, "edit")
         return {"gen": "edit", "input": inp, "pretext": ptx, "prefix": "SUPER_", "pieces": pieces}
 
